@@ -283,6 +283,24 @@ def check(ctx: Ctx) -> list[RuleResult]:
         r3.fail(f"{w.short}:debit-skipped:{'exceptional' if ex is not None and ex.kind == 'raise_exit' else 'normal'}-exit", w.loc(write[0].ast), "a write can complete or fail without the frame being debited from the bit bucket", [f"{p.kind}@{p.line} --{lab}-->" for p, lab in zip(path, labs[1:] + [""])][:8])
     else:
         r3.ok({"debit": f"`{norm(debit[0].ast)}` post-dominates the write on normal and exceptional exits (finally)"})
+    # the debit is exact: level := level - size. A clamp (max(level - size, 0), `if level < 0: level = 0`) forgives the debt a writer
+    # ran up by being let through after its wait - under a sustained stream every write then costs less than it used
+    r3.instances += 1
+    r3.nontrivial += 1
+    inexact = []
+    for d0 in debit:
+        a = d0.ast
+        exact = (isinstance(a, ast.AugAssign) and isinstance(a.op, ast.Sub) and bool(reads(a.value) & size_vars) and not any(isinstance(c, ast.Call) for c in ast.walk(a.value))) or (isinstance(a, ast.Assign) and isinstance(a.value, ast.BinOp) and isinstance(a.value.op, ast.Sub) and norm(a.value.left) == bm.level and bool(reads(a.value.right) & size_vars) and not any(isinstance(c, ast.Call) for c in ast.walk(a.value)))
+        if not exact:
+            inexact.append(a)
+    floors = [x.ast for x in cfgw.nodes if x.ast is not None and x.kind == "stmt" and bm.writes(x.ast, bm.level) and not bm.is_refill(x.ast) and x.id not in debit_ids and write and x.id in cfgw.reachable_from(write[0].id)]
+    if cm_debit:
+        r3.ok({"debit_exact": "in the context manager (not examined further)"})
+    elif inexact or floors:
+        a = (inexact or floors)[0]
+        r3.fail(f"{w.short}:debit-not-exact", w.loc(a), f"`{norm(a)[:70]}` does not take exactly the frame's size off the bucket (clamped/re-based level): the debt of a writer that was let through after its wait is forgotten, so a sustained stream is written at more than the configured duty cycle")
+    else:
+        r3.ok({"debit_exact": norm(debit[0].ast)})
     r3.instances += 1
     r3.nontrivial += 1
     # the amount tested/debited grows with the payload: after copy propagation it contains len(<a slice of frame>) with a positive factor
@@ -301,7 +319,7 @@ def check(ctx: Ctx) -> list[RuleResult]:
 
     # ---- R6 ---------------------------------------------------------------------------
     r6 = RuleResult("R6", "bucket updates are atomic and the refill stamp always advances", "no write of a shared bucket variable from a snapshot taken before an await; every refill is paired with a stamp update on all paths", min_instances=4)
-    mwf = repo.func(f"{T}.MqttTransport.write_frame")
+    mwf, _chain6 = _mqtt_limiter(ctx)
     shared_m = set()
     for n in own_nodes(mwf.node):
         if isinstance(n, (ast.Assign, ast.AugAssign, ast.AnnAssign)):
@@ -368,7 +386,7 @@ def check(ctx: Ctx) -> list[RuleResult]:
 
     # ---- R4 ---------------------------------------------------------------------------
     r4 = RuleResult("R4", "MQTT drops rather than queues", "the over-budget branch returns before the debit and the write; nothing accumulates frames", min_instances=2)
-    mw = repo.func(f"{T}.MqttTransport.write_frame")
+    mw, chain4 = _mqtt_limiter(ctx)
     cfgm = ctx.plain_cfg(mw)
     r4.instances += 1
     r4.nontrivial += 1
@@ -379,6 +397,32 @@ def check(ctx: Ctx) -> list[RuleResult]:
         r4.ok({"over_budget": "returns before the debit and the write", "debit_before_write": True})
     else:
         r4.fail(f"{mw.short}:drop-branch", mw.loc(), "MqttTransport.write_frame no longer drops an over-budget write before debiting/writing (or writes without debiting a token)")
+    # "dropped rather than queued without bound": the drop decision is taken before the caller can be suspended - a lock/semaphore
+    # (or any await) between the entry of write_frame and the over-budget test is a queue of suspended writers, each of which is
+    # let through (and debited) once it reaches the head
+    r4.instances += 1
+    r4.nontrivial += 1
+    susp = []
+    for caller, call in chain4:
+        p4 = getattr(call, "parent", None)
+        while p4 is not None and p4 is not caller.node:
+            if isinstance(p4, ast.AsyncWith):
+                susp.append((caller, p4, f"`async with {norm(p4.items[0].context_expr)[:40]}` around the limiter"))
+            p4 = getattr(p4, "parent", None)
+        cfgc = ctx.plain_cfg(caller)
+        cn = [x for x in cfgc.nodes if x.ast is not None and any(y is call for y in ast.walk(x.ast))]
+        for x in cfgc.nodes:
+            if x.ast is not None and x.kind == "stmt" and cn and x.id != cn[0].id and any(isinstance(y, ast.Await) for y in ast.walk(x.ast)) and cn[0].id in cfgc.reachable_from(x.id):
+                susp.append((caller, x.ast, f"`{norm(x.ast)[:50]}` before the limiter is entered"))
+    if drop:
+        for x in cfgm.nodes:
+            if x.ast is not None and x.kind in ("stmt", "test") and x.id != drop[0].id and any(isinstance(y, ast.Await) for y in ast.walk(x.ast)) and drop[0].id in cfgm.reachable_from(x.id) and x.id not in cfgm.reachable_from(drop[0].id):
+                susp.append((mw, x.ast, f"`{norm(x.ast)[:50]}` before the over-budget test"))
+    if susp:
+        f4, n4, why4 = susp[0]
+        r4.fail(f"{f4.short}:suspension-before-drop-decision", f4.loc(n4), f"a writer can be suspended before the over-budget decision is taken ({why4}): over-budget writes then queue up (without bound) behind the suspension point instead of being dropped, and each is written when it reaches the head")
+    else:
+        r4.ok({"suspension_points_before_the_drop_decision": 0, "limiter": mw.short})
     r4.instances += 1
     r4.nontrivial += 1
     accum = [norm(n) for f in repo.funcs.values() if f.cls is not None and f.cls.name in ("MqttTransport", "_FullTransport") and f.name in ("write_frame", "_write_frame") for n in own_nodes(f.node) if isinstance(n, ast.Call) and isinstance(n.func, ast.Attribute) and n.func.attr in ("append", "put", "put_nowait", "appendleft", "extend") and "frame" in norm(n)]
@@ -417,6 +461,29 @@ def check(ctx: Ctx) -> list[RuleResult]:
         raise AnalysisError("write path call sites not found")
     out.append(r5)
     return out
+
+
+def _mqtt_limiter(ctx: Ctx):
+    """The function on MqttTransport's write path that holds the token bucket (refills a self attribute from the clock): write_frame
+    itself, or a private coroutine of the same class it awaits. Returns (function, [(caller, call node), ...] from write_frame down)."""
+    repo = ctx.repo
+    cur = repo.func(f"{T}.MqttTransport.write_frame")
+    chain = []
+    for _ in range(3):
+        has_clock = any(isinstance(n, ast.Call) and norm(n) in CLOCKS for n in own_nodes(cur.node))
+        if has_clock:
+            return cur, chain
+        nxt = None
+        for n in own_nodes(cur.node):
+            if isinstance(n, ast.Call) and isinstance(n.func, ast.Attribute) and isinstance(n.func.value, ast.Name) and n.func.value.id == "self" and cur.cls is not None:
+                g = next((k.methods[n.func.attr] for k in cur.cls.mro if n.func.attr in k.methods), None)
+                if g is not None and g.cls is cur.cls and any(isinstance(m, ast.Call) and norm(m) in CLOCKS for m in own_nodes(g.node)):
+                    nxt = (g, n)
+        if nxt is None:
+            break
+        chain.append((cur, nxt[1]))
+        cur = nxt[0]
+    raise AnalysisError("MqttTransport.write_frame: the token-bucket limiter (a clock read on the write path) was not found")
 
 
 CLOCKS = ("perf_counter()", "time.perf_counter()", "time.monotonic()", "monotonic()", "time.time()", "time()")
